@@ -8,16 +8,16 @@ TECHNIQUE = ("model-based testing: exhaustive enumeration of all short operation
              "random histories (base_cache and cache_interface with pages, frames and nested trigger recorders) run in lock-step with "
              "an independent reference model under a virtual clock, ASan/UBSan")
 LEVEL = "exploration"
-LEVEL_TEXT = ("Every history of 4 operations (5 in the thorough tier) over keys {a,b} x triggers {a,b,t} x deadlines {past,now,now+1,far} "
+LEVEL_TEXT = ("Every history of 3 operations (thorough: 4; one more over a reduced alphabet) over keys {a,b} x triggers {a,b,t} x deadlines {past,now,now+1,far} "
               "is executed on thread_shared and process_shared back-ends and compared step by step (value, trigger set, deadline, stats) "
               "with a reference map; long random histories over alphabets of 2..256 keys add limits, binary/empty/long keys, clock "
               "advances and page-building sessions through cache_interface whose recorded trigger sets are read back through the base "
               "interface.")
-LEVEL_NOTE = ("Sampling beyond depth 4/5; single-threaded histories only (C09 covers concurrency); with a size limit in play a miss on a "
+LEVEL_NOTE = ("Sampling beyond the enumerated depth; single-threaded histories only (C09 covers concurrency); with a size limit in play a miss on a "
               "live entry is accepted here (C08 decides eviction order); process_shared runs use one 256 MiB segment per process where "
               "memory pressure is excluded by a counting argument, else the model falls back to 'may have been evicted'.")
 DESIGN_REF = "3/C07"
-RULE = ("case = (back-end, limit, operation history). enumeration: all histories of fixed depth over store(k,T,deadline)/rise/remove/"
+RULE = ("case = (back-end, limit, operation history). enumeration: all histories of fixed depth (see exhaustive_subspace) over store(k,T,deadline)/rise/remove/"
         "clear/tick(/fetch when limited) with a sweep fetch of every key after every step; random: 1..200 operations over 2..256 keys "
         "(base) or 4..100 interface operations (page_begin/fetch_page, write, add_trigger, fetch_frame, store_frame, recorder "
         "push/pop+store/drop, reset, store_page, rise, clear, tick). Non-trivial: the history contains a fetch of a key that follows a "
@@ -37,22 +37,23 @@ def units(bins, tier, seed):
     thorough = tier == "thorough"
     # --- exhaustive part
     plans = [  # (backend, limit, depth, reduced alphabet, shards)
-        (0, 0, 4, 0, 12),
+        (0, 0, 4 if thorough else 3, 0, 12 if thorough else 1),
         (1, 0, 4 if thorough else 3, 0, 8 if thorough else 1),
         (0, 1, 4 if thorough else 3, 0, 4 if thorough else 1),
         (0, 2, 4 if thorough else 3, 0, 4 if thorough else 1),
         (1, 2, 4 if thorough else 3, 0, 4 if thorough else 1),
     ]
-    if thorough:
-        plans.append((0, 0, 5, 1, 32))
+    plans.append((0, 0, 5, 1, 32) if thorough else (0, 0, 4, 1, 8))
+    if not thorough:
+        plans.append((1, 0, 4, 1, 4))
     for (be, lim, depth, red, shards) in plans:
         for i in range(shards):
             us.append(Unit("c07_cache.enum-b%d-l%d-d%d-%d" % (be, lim, depth, i), [b],
                            env={"C07_MODE": "enum", "C07_BACKEND": be, "C07_SEG_KIB": SEG_KIB, "C07_LIMIT": lim, "C07_DEPTH": depth,
                                 "C07_REDUCED": red, "C07_STRIDE": shards, "C07_OFFSET": i}, group="enum", timeout=3000))
     # --- random part
-    nb = 2500 if not thorough else 25000
-    ni = 1200 if not thorough else 12000
+    nb = 6000 if not thorough else 40000
+    ni = 3000 if not thorough else 20000
     k = 0
     for (be, cnt) in ((0, 3 if not thorough else 5), (1, 1 if not thorough else 2)):
         for i in range(cnt):
@@ -64,13 +65,15 @@ def units(bins, tier, seed):
             us.append(Unit("c07_cache.iface-b%d-%d" % (be, i), [b, "--only", "iface"],
                            env={"C07_BACKEND": be, "C07_SEG_KIB": SEG_KIB, "RC_PARAMS": rc_params(seed * 1000 + 100 + k, ni, 200)}, group="random-iface", timeout=3000))
             k += 1
-    return us
+    # one unit of each kind first (the evidence keeps the samples of the first units), the long enumeration shards right after
+    first = [u for u in us if u.name.endswith(("iface-b0-0", "base-b0-0", "iface-b1-0", "base-b1-0"))]
+    return first + [u for u in us if u not in first]
 
 
 def floor(tier):
     if tier == "thorough":
-        return {"enum": 40 ** 5 + 2 * 48 ** 4 + 3 * 50 ** 4, "random-base": 7 * 25000, "random-iface": 6 * 12000}
-    return {"enum": 48 ** 4 + 48 ** 3 + 3 * 50 ** 3, "random-base": 4 * 2500, "random-iface": 3 * 1200}
+        return {"enum": 32 ** 5 + 2 * 48 ** 4 + 3 * 50 ** 4, "random-base": 7 * 40000, "random-iface": 6 * 20000}
+    return {"enum": 2 * 32 ** 4 + 2 * 48 ** 3 + 3 * 50 ** 3, "random-base": 4 * 6000, "random-iface": 3 * 3000}
 
 
 def regressions(res, units_, bins):
@@ -96,10 +99,12 @@ def run(tier, seed):
                           assumptions=["the reference model in harness/c07_model.h (SimpleModel) is correct",
                                        "time() is the only clock the cache consults (interposed at link time)",
                                        "tests/dummy_api.h provides a faithful in-memory connection for http::context"],
-                          extra={"exhaustive_subspace": "all histories of depth 4 over keys {a,b}, triggers {a,b,t}, deadlines {now-1, now, now+1, "
-                                 "now+1000}, clock steps {1,2} on thread_shared without limit; depth 3 (thorough: 4) on process_shared and "
-                                 "with limits 1 and 2 (fetch added to the alphabet); thorough: depth 5 on thread_shared without the "
-                                 "'own key listed explicitly' trigger subsets"})
+                          extra={"exhaustive_subspace": "keys {a,b}, triggers {a,b,t}, clock steps {1,2}, sweep fetch of both keys and stats after every step. "
+                                 "quick: all histories of depth 3 over the full alphabet (5 trigger subsets x deadlines {now-1, now, now+1, now+1000}) "
+                                 "on thread_shared and process_shared without limit and with limits 1 and 2 (fetch added to the alphabet), plus "
+                                 "depth 4 on thread_shared and process_shared over the reduced alphabet (no 'own key listed explicitly' subsets, deadlines {now-1, "
+                                 "now, now+1000}). thorough: depth 4 over the full alphabet in all five configurations, depth 5 over the "
+                                 "reduced alphabet on thread_shared"})
 
 
 def replay(path):
